@@ -50,6 +50,7 @@ import (
 type Conn struct {
 	Segs []hx.B `json:"segs"`           // client writes (TCP: one Write each; UDP: concatenated = the datagram)
 	End  string `json:"end"`            // close | silent   (UDP: ignored, the datagram is simply consumed)
+	Room *int   `json:"room,omitempty"` // the peer stops READING after this many bytes (nil: it keeps reading) and keeps the connection open
 	Dial string `json:"dial,omitempty"` // ftp, every passive port announced: "" never connects | knock: connects and closes | hold: connects and stays silent
 }
 
@@ -76,6 +77,7 @@ type ConnObs struct {
 	EOFs      int64  `json:"eofs"`
 	Writes    int64  `json:"writes"`
 	WBytes    int64  `json:"wbytes"`
+	WTimeouts int64  `json:"wtimeouts"`  // Write returned a timeout error (the peer had stopped reading)
 	ElapsedMs int64  `json:"elapsed_ms"` // from "client gone" to Handle returning
 	Gor       int    `json:"gor"`        // honeytrap goroutines above the baseline after this connection
 	Lis       int    `json:"lis"`        // listening sockets above the baseline
@@ -93,12 +95,33 @@ type ChildResult struct {
 	GorGC  int       `json:"gor_gc"`
 	Settled []int    `json:"settled,omitempty"` // goroutines, listeners, descriptors above the baseline one passive-socket timeout later
 	Events int64     `json:"events"`
+	Lists  [][]hx.B  `json:"lists,omitempty"`
 	Err    string    `json:"err,omitempty"`
 }
 
-type countChannel struct{ n int64 }
+type countChannel struct {
+	n     int64
+	mu    sync.Mutex
+	lists [][]hx.B // the string lists ssh-simulator decoded from env / exec request payloads, in order
+}
 
-func (c *countChannel) Send(e event.Event) { atomic.AddInt64(&c.n, 1) }
+func (c *countChannel) Send(e event.Event) {
+	atomic.AddInt64(&c.n, 1)
+	e.Range(func(k, v interface{}) bool {
+		if ks, ok := k.(string); ok && (ks == "ssh.env" || ks == "ssh.exec") {
+			if l, ok := v.([]string); ok {
+				var o []hx.B
+				for _, x := range l {
+					o = append(o, hx.B(x))
+				}
+				c.mu.Lock()
+				c.lists = append(c.lists, o)
+				c.mu.Unlock()
+			}
+		}
+		return true
+	})
+}
 
 // ---- resource probes ----
 
@@ -314,6 +337,9 @@ func runConn(svc services.Servicer, sp Spec, idx int) (ob ConnObs, gone bool) {
 			segs = append(segs, s)
 		}
 		mc := newMemConn(&net.TCPAddr{IP: lip, Port: 21}, &net.TCPAddr{IP: rip, Port: 40000}, segs, sp.Conn.End)
+		if sp.Conn.Room != nil {
+			mc.room = int64(*sp.Conn.Room)
+		}
 		if sp.Svc == "ftp" {
 			var acc []byte
 			mc.onWrite = func(p []byte) { // the client reads the replies; it may dial announced passive ports
@@ -416,7 +442,7 @@ func runConn(svc services.Servicer, sp Spec, idx int) (ob ConnObs, gone bool) {
 		gone = true
 	}
 	ob.Reads, ob.ZeroReads, ob.Timeouts, ob.EOFs = atomic.LoadInt64(&cnt.reads), atomic.LoadInt64(&cnt.zero), atomic.LoadInt64(&cnt.timeouts), atomic.LoadInt64(&cnt.eofs)
-	ob.Writes, ob.WBytes = atomic.LoadInt64(&cnt.writes), atomic.LoadInt64(&cnt.wbytes)
+	ob.Writes, ob.WBytes, ob.WTimeouts = atomic.LoadInt64(&cnt.writes), atomic.LoadInt64(&cnt.wbytes), atomic.LoadInt64(&cnt.wtimeouts)
 	ob.P227 = int(atomic.LoadInt64(&p227))
 	switch sp.Perturb { // sanity tests of the check itself (never set by the generator)
 	case "obs-leak":
@@ -478,6 +504,9 @@ func childMain(specPath, outPath string) {
 	var res ChildResult
 	write := func() {
 		res.Events = atomic.LoadInt64(&ch.n)
+		ch.mu.Lock()
+		res.Lists = ch.lists
+		ch.mu.Unlock()
 		jb, _ := json.Marshal(res)
 		ioutil.WriteFile(outPath, jb, 0o644)
 	}
